@@ -13,6 +13,7 @@ var commonAssume = []string{
 var h02Bounds = map[string]string{
 	"H02":     "recipe family: Allow/Require/Exclude symbolic within the masks given as harness parameters (allowmask/requiremask/excludemask, bits Uppers=1 Lowers=2 Digits=4 Symbols=8 Ambiguous=16); AllowChars and ExcludeChars each one of the first `strings` probe strings (\"\", a, 0a5, é!é, ✓Z, O0, ab, xyz!); RequireSets one of the first `reqsets` probe families (nil, {0}, {a,5é}, {\"\",ab}, {ab,bc}, {✓,!@,Z}, {0123456789}, {aa}, {Il1,0123456789}, {7,7}, {ab,ba}); Length 1..L; MaxTrials 1..T; every draw symbolic (all alphabet indices, all accept/reject patterns)",
 	"quick":   "masks 12/4/16, strings 3, reqsets 11, L 2, T 2",
+	"thorough": "masks 14/4/20, strings 3, reqsets 11, L 2, T 2; and L = 3 with masks 12/4/16, strings 2, reqsets 6",
 	"outside": "lengths above L, MaxTrials above T, custom strings outside the probe lists; the pre-flight refusal (MaxFailRate is set to 1 by the harness) is C13's subject",
 }
 
@@ -50,8 +51,10 @@ func propSpecs() map[string]*PropSpec {
 			ID: "C02", Sub: "spg", Level: "model_checking",
 			Harnesses: []HSpec{
 				{Name: "H02", Quick: P{"allowmask": 12, "requiremask": 4, "excludemask": 16, "strings": 3, "reqsets": 11, "L": 2, "T": 2},
-					Thorough: P{"allowmask": 14, "requiremask": 12, "excludemask": 20, "strings": 3, "reqsets": 11, "L": 3, "T": 2},
+					Thorough: P{"allowmask": 14, "requiremask": 4, "excludemask": 20, "strings": 3, "reqsets": 11, "L": 2, "T": 2},
 					Reach:    []string{"returned", "accepted", "accepted-after-retry", "exhausted", "empty-alphabet"}},
+				{Name: "H02", Label: "length-3", ThoroughOnly: true, Thorough: P{"allowmask": 12, "requiremask": 4, "excludemask": 16, "strings": 2, "reqsets": 6, "Lmin": 3, "L": 3, "T": 2},
+					Reach: []string{"returned", "accepted", "accepted-after-retry"}},
 				{Name: "H01", Label: "kernel-contract", Int: true, Quick: P{"unwind:randomUint32n": 5, "unwind_expected": 1, "maxdecisions": 40}, Thorough: P{"unwind:randomUint32n": 10, "unwind_expected": 1, "maxdecisions": 45}, Reach: []string{"returned", "after-rejection"}},
 				{Name: "H01P", Label: "kernel-contract", Reach: []string{"returned"}},
 			},
@@ -64,10 +67,10 @@ func propSpecs() map[string]*PropSpec {
 				{Name: "H02", Quick: P{"allowmask": 12, "requiremask": 4, "excludemask": 16, "strings": 3, "reqsets": 11, "L": 2, "T": 2},
 					Thorough: P{"allowmask": 31, "requiremask": 31, "excludemask": 31, "strings": 1, "reqsets": 1, "L": 1, "T": 1},
 					Reach:    []string{"returned", "accepted", "empty-alphabet"}},
-				{Name: "H02", Label: "long-with-two-required-sets", Quick: P{"allowmask": 0, "requiremask": 0, "excludemask": 0, "strings": 1, "reqsetmin": 4, "reqsets": 5, "Lmin": 26, "L": 26, "T": 2}, Thorough: P{"allowmask": 0, "requiremask": 0, "excludemask": 0, "strings": 2, "reqsetmin": 4, "reqsets": 6, "Lmin": 26, "L": 27, "T": 2}, Reach: []string{"accepted", "accepted-after-retry"}},
+				{Name: "H02", Label: "long-with-two-required-sets", Quick: P{"allowmask": 0, "requiremask": 0, "excludemask": 0, "strings": 1, "reqsetmin": 4, "reqsets": 5, "Lmin": 26, "L": 26, "T": 2}, Thorough: P{"allowmask": 0, "requiremask": 0, "excludemask": 0, "strings": 1, "reqsetmin": 4, "reqsets": 5, "Lmin": 26, "L": 26, "T": 2}, Reach: []string{"accepted", "accepted-after-retry"}},
 				{Name: "H02", Label: "generated-again", Quick: P{"allowmask": 4, "requiremask": 4, "excludemask": 0, "strings": 2, "reqsets": 3, "L": 2, "T": 1, "again": 1}, Thorough: P{"allowmask": 12, "requiremask": 4, "excludemask": 16, "strings": 2, "reqsets": 4, "L": 2, "T": 2, "again": 1}, Reach: []string{"generated-again"}},
 				{Name: "H02", Label: "after-sibling-call", Quick: P{"allowmask": 4, "requiremask": 0, "excludemask": 16, "strings": 2, "reqsets": 11, "L": 1, "T": 1, "primes": 5}, Thorough: P{"allowmask": 4, "requiremask": 4, "excludemask": 16, "strings": 3, "reqsets": 11, "L": 2, "T": 2, "primes": 5}, Reach: []string{"returned", "primed"}},
-				{Name: "H02", Label: "custom-strings", ThoroughOnly: true, Thorough: P{"allowmask": 14, "requiremask": 12, "excludemask": 20, "strings": 8, "reqsets": 11, "L": 2, "T": 2},
+				{Name: "H02", Label: "custom-strings", ThoroughOnly: true, Thorough: P{"allowmask": 12, "requiremask": 4, "excludemask": 16, "strings": 5, "reqsets": 11, "L": 2, "T": 2},
 					Reach: []string{"returned", "accepted", "accepted-after-retry"}},
 			},
 			Bounds: h02Bounds,
@@ -78,7 +81,7 @@ func propSpecs() map[string]*PropSpec {
 			Harnesses: []HSpec{
 				{Name: "H04", Quick: P{"L": 2}, Thorough: P{"L": 3}, Reach: []string{"returned", "structure", "capitalised"}},
 				{Name: "H04", Label: "long", Quick: P{"Lmin": 64, "L": 66, "lists": 2, "schemes": 5, "seps": 2}, Thorough: P{"Lmin": 63, "L": 70, "lists": 2, "schemes": 5, "seps": 2}, Reach: []string{"returned", "structure", "capitalised"}},
-				{Name: "H04", Label: "three-words-all-separators", Quick: P{"Lmin": 3, "L": 4, "lists": 3, "schemes": 4}, Thorough: P{"Lmin": 3, "L": 5, "lists": 4, "schemes": 6}, Reach: []string{"returned", "structure"}},
+				{Name: "H04", Label: "three-words-all-separators", Quick: P{"Lmin": 3, "L": 4, "lists": 3, "schemes": 4}, Thorough: P{"Lmin": 3, "L": 4, "lists": 4, "schemes": 6}, Reach: []string{"returned", "structure"}},
 				{Name: "H04", Label: "after-capitalising-call", Quick: P{"L": 2, "lists": 4, "seps": 3, "prime": 1}, Thorough: P{"L": 3, "lists": 6, "seps": 5, "prime": 1}, Reach: []string{"returned", "structure", "primed"}},
 				{Name: "H01", Label: "kernel-contract", Int: true, Quick: P{"unwind:randomUint32n": 5, "unwind_expected": 1, "maxdecisions": 40}, Thorough: P{"unwind:randomUint32n": 10, "unwind_expected": 1, "maxdecisions": 45}, Reach: []string{"returned", "after-rejection"}},
 				{Name: "H01P", Label: "kernel-contract", Reach: []string{"returned"}},
@@ -91,7 +94,7 @@ func propSpecs() map[string]*PropSpec {
 			Harnesses: []HSpec{
 				{Name: "H04", Quick: P{"L": 2}, Thorough: P{"L": 3}, Reach: []string{"returned", "structure", "capitalised"}},
 				{Name: "H04", Label: "long", Quick: P{"Lmin": 64, "L": 66, "lists": 2, "schemes": 5, "seps": 2}, Thorough: P{"Lmin": 63, "L": 70, "lists": 2, "schemes": 5, "seps": 2}, Reach: []string{"returned", "structure", "capitalised"}},
-				{Name: "H04", Label: "three-words-all-separators", Quick: P{"Lmin": 3, "L": 4, "lists": 3, "schemes": 4}, Thorough: P{"Lmin": 3, "L": 5, "lists": 4, "schemes": 6}, Reach: []string{"returned", "structure"}},
+				{Name: "H04", Label: "three-words-all-separators", Quick: P{"Lmin": 3, "L": 4, "lists": 3, "schemes": 4}, Thorough: P{"Lmin": 3, "L": 4, "lists": 4, "schemes": 6}, Reach: []string{"returned", "structure"}},
 				{Name: "H04", Label: "after-capitalising-call", Quick: P{"L": 2, "lists": 4, "seps": 3, "prime": 1}, Thorough: P{"L": 3, "lists": 6, "seps": 5, "prime": 1}, Reach: []string{"returned", "structure", "primed"}},
 				{Name: "H01", Label: "kernel-contract", Int: true, Quick: P{"unwind:randomUint32n": 5, "unwind_expected": 1, "maxdecisions": 40}, Thorough: P{"unwind:randomUint32n": 10, "unwind_expected": 1, "maxdecisions": 45}, Reach: []string{"returned", "after-rejection"}},
 				{Name: "H01P", Label: "kernel-contract", Reach: []string{"returned"}},
@@ -102,14 +105,15 @@ func propSpecs() map[string]*PropSpec {
 		{
 			ID: "C06", Sub: "spg", Level: "model_checking",
 			Harnesses: []HSpec{
-				{Name: "H06w", Quick: P{"L": 2, "lists": 13}, Thorough: P{"L": 3, "lists": 13}, Reach: []string{"compared"}},
-				{Name: "H06c", Quick: P{"allowmask": 12, "requiremask": 4, "excludemask": 16, "strings": 3, "reqsets": 11, "L": 2}, Thorough: P{"allowmask": 14, "requiremask": 12, "excludemask": 20, "strings": 5, "reqsets": 11, "L": 3}, Reach: []string{"computed", "primed"}},
-				{Name: "H06c", Label: "beyond-float64", Quick: P{"allowmask": 6, "requiremask": 4, "excludemask": 0, "strings": 1, "reqsets": 2, "L": 1, "bigL": 1, "primes": 1}, Thorough: P{"allowmask": 14, "requiremask": 12, "excludemask": 16, "strings": 2, "reqsets": 3, "L": 1, "bigL": 1, "primes": 1}, Reach: []string{"computed"}},
+				{Name: "H06w", Quick: P{"L": 2, "lists": 13}, Thorough: P{"L": 3, "lists": 4}, Reach: []string{"compared"}},
+				{Name: "H06w", Label: "all-lists", ThoroughOnly: true, Thorough: P{"L": 2, "lists": 13}, Reach: []string{"compared"}},
+				{Name: "H06c", Quick: P{"allowmask": 12, "requiremask": 4, "excludemask": 16, "strings": 3, "reqsets": 11, "L": 2}, Thorough: P{"allowmask": 14, "requiremask": 12, "excludemask": 20, "strings": 3, "reqsets": 11, "L": 2}, Reach: []string{"computed", "primed"}},
+				{Name: "H06c", Label: "beyond-float64", Quick: P{"allowmask": 6, "requiremask": 4, "excludemask": 0, "strings": 1, "reqsets": 2, "L": 1, "bigL": 1, "primes": 1}, Thorough: P{"allowmask": 6, "requiremask": 4, "excludemask": 0, "strings": 1, "reqsets": 2, "L": 1, "bigL": 1, "primes": 1}, Reach: []string{"computed"}},
 				{Name: "H02", Label: "entropy-field", Quick: P{"allowmask": 4, "requiremask": 4, "excludemask": 16, "strings": 2, "reqsets": 6, "L": 2, "T": 2}, Thorough: P{"allowmask": 12, "requiremask": 4, "excludemask": 16, "strings": 3, "reqsets": 11, "L": 2, "T": 2}, Reach: []string{"accepted"}},
-				{Name: "H04", Label: "entropy-field", Quick: P{"L": 2, "lists": 13, "seps": 3}, Thorough: P{"L": 3, "lists": 13}, Reach: []string{"structure"}},
+				{Name: "H04", Label: "entropy-field", Quick: P{"L": 2, "lists": 13, "seps": 3}, Thorough: P{"L": 3, "lists": 13, "seps": 3}, Reach: []string{"structure"}},
 			},
 			Bounds: map[string]string{
-				"H06w":    "nine word lists (1..7 words; with a word that does not change under title-casing, a pre-capitalised word, leading punctuation, multi-part words), Length 1..L (quick 2, thorough 3), all schemes, separator none / '-' / SFDigits1; two symbolic runs of Generate per recipe: equal token sequences must come from equal word and separator draws (and equal capitalisation draws when every word is capitalisable); Entropy() against log2 of the number of distinguishable draw vectors read off the draw log",
+				"H06w":    "nine word lists (1..7 words; with a word that does not change under title-casing, a pre-capitalised word, leading punctuation, multi-part words), Length 1..L (quick 2; thorough 3 on the first four lists), all schemes, separator none / '-' / SFDigits1; two symbolic runs of Generate per recipe: equal token sequences must come from equal word and separator draws (and equal capitalisation draws when every word is capitalisable); Entropy() against log2 of the number of distinguishable draw vectors read off the draw log",
 				"H06c":    "the C02 recipe family: Entropy() against log2 of the exact number of valid strings (reference DP), optionally after a call on a sibling recipe whose RequireSets are re-split (joined by comma / blank, concatenated, one per character)",
 				"H02/H04": "Password.Entropy == recipe.Entropy() on every accepted path of the C02 and C04 harnesses",
 				"outside": "as C02/C04; the probability statement combines these solver results with C01/C02/C04 (uniform draws) by the counting argument in DESIGN.md §5 C06; log2 is the native math.Log2",
@@ -138,17 +142,17 @@ func propSpecs() map[string]*PropSpec {
 				{Name: "H13a", Reach: []string{"refused", "nil-list"}},
 				{Name: "H13n", Reach: []string{"refused"}},
 				{Name: "H13b", Quick: P{"a": 1, "k": 2, "m": 2, "L": 2, "flags": 1}, Thorough: P{"a": 2, "k": 2, "m": 2, "L": 3, "flags": 1}, Reach: []string{"computed", "comfortably-acceptable", "clearly-unacceptable"}},
-				{Name: "H13b", Label: "class-flags", Quick: P{"a": 0, "k": 2, "m": 1, "L": 2, "flags": 3}, Thorough: P{"a": 1, "k": 2, "m": 1, "L": 3, "flags": 4}, Reach: []string{"computed", "comfortably-acceptable", "clearly-unacceptable"}},
-				{Name: "H13b", Label: "exclude-chars", Quick: P{"a": 2, "k": 1, "m": 2, "e": 2, "L": 2, "flags": 1}, Thorough: P{"a": 2, "k": 2, "m": 2, "e": 2, "L": 3, "flags": 1}, Reach: []string{"computed"}},
-				{Name: "H13b", Label: "beyond-float64", Quick: P{"a": 0, "k": 1, "m": 1, "flags": 4, "bigL": 1}, Thorough: P{"a": 1, "k": 2, "m": 1, "flags": 4, "bigL": 1}, Reach: []string{"computed"}},
-				{Name: "H13b", Label: "after-sibling-call", Quick: P{"a": 0, "k": 2, "m": 2, "L": 2, "flags": 1, "primes": 5}, Thorough: P{"a": 1, "k": 2, "m": 2, "L": 3, "flags": 1, "primes": 5}, Reach: []string{"computed", "primed"}},
-				{Name: "H02", Label: "retry-budget", Quick: P{"allowmask": 4, "requiremask": 4, "excludemask": 16, "strings": 2, "reqsets": 6, "L": 2, "T": 3}, Thorough: P{"allowmask": 12, "requiremask": 12, "excludemask": 16, "strings": 3, "reqsets": 11, "L": 2, "T": 4}, Reach: []string{"exhausted", "accepted-after-retry"}},
+				{Name: "H13b", Label: "class-flags", Quick: P{"a": 0, "k": 2, "m": 1, "L": 2, "flags": 3}, Thorough: P{"a": 1, "k": 2, "m": 1, "L": 2, "flags": 4}, Reach: []string{"computed", "comfortably-acceptable", "clearly-unacceptable"}},
+				{Name: "H13b", Label: "exclude-chars", Quick: P{"a": 2, "k": 1, "m": 2, "e": 2, "L": 2, "flags": 1}, Thorough: P{"a": 2, "k": 1, "m": 2, "e": 2, "L": 3, "flags": 1}, Reach: []string{"computed"}},
+				{Name: "H13b", Label: "beyond-float64", Quick: P{"a": 0, "k": 1, "m": 1, "flags": 4, "bigL": 1}, Thorough: P{"a": 0, "k": 1, "m": 1, "flags": 4, "bigL": 1}, Reach: []string{"computed"}},
+				{Name: "H13b", Label: "after-sibling-call", Quick: P{"a": 0, "k": 2, "m": 2, "L": 2, "flags": 1, "primes": 5}, Thorough: P{"a": 0, "k": 2, "m": 2, "L": 3, "flags": 1, "primes": 5}, Reach: []string{"computed", "primed"}},
+				{Name: "H02", Label: "retry-budget", Quick: P{"allowmask": 4, "requiremask": 4, "excludemask": 16, "strings": 2, "reqsets": 6, "L": 2, "T": 3}, Thorough: P{"allowmask": 12, "requiremask": 4, "excludemask": 16, "strings": 2, "reqsets": 6, "L": 2, "T": 3}, Reach: []string{"exhausted", "accepted-after-retry"}},
 			},
 			Bounds: map[string]string{
 				"H13a":    "Length symbolic over all 64-bit values < 1 (character and wordlist recipes); empty alphabet with Length 1..3; zero-valued CharRecipe and WLRecipe; WLRecipe without a list",
 				"H13b":    "the overlap patterns of C07's family (symbolic characters, including required sets emptied by exclusion), Length 1..L, MaxTrials in {1,3,200}: SuccessProbability against the exact fraction (relative 1e-3), the pre-flight decision outside the band [MaxFailRate/4, 4*MaxFailRate], Generate's refusal for MaxTrials <= 3",
 				"H02":     "retry budget: MaxTrials 1..T, all draws symbolic, including the stream on which every attempt fails",
-				"outside": "the band within a factor 4 of MaxFailRate (float rounding territory); MaxTrials above 4 for the executed retry loop; a symbolic positive Length cannot pass through the float32 entropy (concrete lengths there)",
+				"outside": "the band within a factor 4 of MaxFailRate (float rounding territory); MaxTrials above 3 for the executed retry loop; a symbolic positive Length cannot pass through the float32 entropy (concrete lengths there)",
 			},
 			Assume: commonAssume,
 		},
